@@ -74,8 +74,8 @@ fn reference(cands: &[Snap], stored: &[Snap], cls: u64, only_baked: bool) -> (Ve
                                 (Some(x), Some(y)) => Some(similari::distance::euclidean(&mk_feature(x), &mk_feature(y)) + c.metric_state as f32 * 1000.0),
                                 _ => None,
                             };
-                            if am.is_none() && fd.is_none() {
-                                continue;
+                            if matches!(am, Some(d) if d > 6.0) {
+                                continue; // the metric yields no value for clearly different observations
                             }
                             ok.push((c.id, t.id, am.map(|v| v.to_bits()), fd.map(|v| v.to_bits())));
                         }
@@ -99,6 +99,7 @@ struct Scenario {
     cls: u64,
     only_baked: bool,
     use_iter: bool,
+    merges: Vec<(u64, u64)>,
 }
 
 fn gen_scenario(rng: &mut Rng, small: bool) -> Scenario {
@@ -120,7 +121,17 @@ fn gen_scenario(rng: &mut Rng, small: bool) -> Scenario {
             owned_ids.push(id);
         }
     }
-    Scenario { shards, stored, foreign, owned_ids, owned, cls: if rng.chance(0.15) { nclasses as u64 } else { rng.usize(nclasses) as u64 }, only_baked: rng.chance(0.4), use_iter: rng.chance(0.5) }
+    let mut merges = vec![];
+    if nstored >= 2 && rng.chance(0.5) {
+        for _ in 0..1 + rng.usize(3) {
+            let d = 1 + rng.below(nstored as u64);
+            let s_ = 1 + rng.below(nstored as u64);
+            if d != s_ {
+                merges.push((d, s_));
+            }
+        }
+    }
+    Scenario { merges, shards, stored, foreign, owned_ids, owned, cls: if rng.chance(0.15) { nclasses as u64 } else { rng.usize(nclasses) as u64 }, only_baked: rng.chance(0.4), use_iter: rng.chance(0.5) }
 }
 
 fn store_snaps(st: &Store, shards: usize) -> Vec<Snap> {
@@ -145,6 +156,10 @@ fn run_query(env: &Env, sc: &Scenario) -> (RunOut, Vec<Snap>, Vec<Snap>) {
     let mut st: Store = TrackStoreBuilder::new(sc.shards).default_attributes(WAttrs::new(1, 8, env.plan.clone())).metric(WMetric { state: 0, plan: env.plan.clone() }).notifier(env.notif.clone()).build();
     for s in &sc.stored {
         st.add_track(lib_track(env, s)).unwrap();
+    }
+    // some stored tracks carry a merge history that names other tracks which are still stored
+    for (d, s_) in &sc.merges {
+        let _ = st.merge_owned(*d, *s_, None, false, true);
     }
     let before = store_snaps(&st, sc.shards);
     let cand_snaps: Vec<Snap> = if sc.owned { before.iter().filter(|s| sc.owned_ids.contains(&s.id)).cloned().collect() } else { sc.foreign.iter().map(|s| snap(&lib_track(env, s))).collect() };
@@ -208,7 +223,7 @@ fn main() {
         let sc = gen_scenario(&mut rng, small);
         rep.eval();
         let ctx = json!({"shards": sc.shards, "owned": sc.owned, "class": sc.cls, "only_baked": sc.only_baked, "iterator": sc.use_iter,
-            "stored": sc.stored.iter().map(|s| format!("{:?}", s)).collect::<Vec<_>>(),
+            "stored": sc.stored.iter().map(|s| format!("{:?}", s)).collect::<Vec<_>>(), "merges_with_history[dest,src]": sc.merges,
             "candidates": if sc.owned { json!(sc.owned_ids) } else { json!(sc.foreign.iter().map(|s| format!("{:?}", s)).collect::<Vec<_>>()) }});
         // 1. plain run (recorded)
         ctl.set_mode(Mode::Record);
